@@ -20,7 +20,7 @@ def universe_hash():
 
 
 def plan(tier, seed, complete=False):
-    items, zinfo = PL.plan_docs(tier, seed, complete)
+    items, zinfo = PL.plan_docs(tier, seed, complete, check="C04")
     return {
         "items": items, "zones": zinfo, "exhaustive": False,
         "rule": "documents of the frozen universes; stack automaton over every returned token list; distinct = distinct token-kind sequences",
